@@ -269,7 +269,7 @@ func c14GenProgram(c *wk.Case) string {
 		}
 		g := gen.New(c.Rng, gen.ProfControl)
 		prog := g.OrderProgram()
-		if g.Feat["stmt-go"] == 0 {
+		if g.Feat["stmt-go"] == 0 && g.Feat["stmt-go-panicking-host"] == 0 {
 			return gen.Source(prog)
 		}
 	}
